@@ -100,13 +100,20 @@ func c16Check(c *C16Case) string {
 		doc := docOf(`"s":`+gen.JSONString(c.S), `"sep":`+gen.JSONString(c.Sep))
 		// (an earlier result of the same split is modified first: every call builds its own result)
 		prog := `{ p = $.s.split($.sep); p[0] = "Y" + p[0]; p.push("Z"); u = $.s.upper(); u = u + "!"
-print json([$.s.length(), $.s.upper(), $.s.lower(), $.s.upper().upper(), $.s.lower().lower(), $.s.split($.sep), $.s]) }`
+print json([$.s.length(), $.s.upper(), $.s.lower(), $.s.upper().upper(), $.s.lower().lower(), $.s.split($.sep), $.s])
+print $.s.length(), $.sep.length(), $.s.length() - $.sep.length(), ({a: 1, b: 2}).length() - ({}).length() }`
 		_, vals, msg := runJSON(prog, doc)
 		if msg != "" {
 			return msg
 		}
-		if len(vals) != 1 || vals[0].K != jsonx.Arr || len(vals[0].Items) != 7 {
+		if len(vals) != 5 || vals[0].K != jsonx.Arr || len(vals[0].Items) != 7 {
 			return "unexpected output shape"
+		}
+		// two results of length() that are alive at the same time are two numbers
+		for k, want := range []int{len(c.S), len(c.Sep), len(c.S) - len(c.Sep), 2} {
+			if vals[1+k].K != jsonx.Num || vals[1+k].N != float64(want) {
+				return fmt.Sprintf("print s.length(), sep.length(), s.length() - sep.length(), {a, b}.length() - {}.length() for s = %q, sep = %q: value %d is %s, want %d", c.S, c.Sep, k+1, jsonx.Compact(vals[1+k]), want)
+			}
 		}
 		it := vals[0].Items
 		if it[0].K != jsonx.Num || it[0].N != float64(len(c.S)) {
